@@ -3,11 +3,16 @@ import BreezyVerif.Model.C10
 /-
 C10 driver.
 
-  ic  <impl g|c> <incl T|F> <unv T|F> <reqv T|F> <filter> <src> <tgt> <extras>
-      -> canonical change records, sorted, joined by `;` (`-` = none) | E:PathsNotVersioned:<paths> | E:fuel
-  app <impl g|c> <filter> <src> <tgt>
-      -> `<applied T|F> <wf T|F> <equalsTarget T|F>` for applyChanges src tgt (iterChanges …)
+  ic  <fx T|F> <impl g|c> <incl T|F> <unv T|F> <reqv T|F> <filter> <src> <tgt> <extras>
+      -> canonical change records, sorted, joined by `;` (`-` = none) | E:PathsNotVersioned:<paths>
+         | E:Diverged (the `_handle_precise_ids` loop does not finish within its fuel)
+      fx = F: the loop of the unchanged code (`iterChangesG false = iterChanges`);
+      fx = T: the loop with the `examined_file_ids` fix
+  app <fx T|F> <impl g|c> <filter> <src> <tgt>
+      -> `<applied T|F> <wf T|F> <equalsTarget T|F>` for applyChanges src tgt (iterChangesG …)
   wf  <tree> -> T|F
+  hyp <src> <tgt> -> `<wf src> <wf tgt> <sameRoot> <noSlotOccupant> <noPathOccupant>` (T|F each):
+      the hypotheses of filter_wf_partial / precise_terminates_partial
 
 tree    = entries joined by `;`, entry = `id:parent:name:kind:content:exec`
           (parent `~` for the root, name `.` for the empty name, kind f|d|l,
@@ -85,38 +90,44 @@ def parseImpl (s : String) : Option Impl :=
 
 def showErr : Err → String
   | .pathsNotVersioned ps => "E:PathsNotVersioned:" ++ ",".intercalate (sortStrings (ps.map showPath))
-  | .fuel => "E:fuel"
+  | .fuel => "E:Diverged"
 
 /-- lookup-equality over all ids of both trees -/
 def sameTree (a b : Tree) : Bool := (ids a ++ ids b).all fun i => get a i == get b i
 
 def handle : List String → String
-  | ["ic", impl, incl, unv, reqv, filt, src, tgt, extras] =>
-    match parseImpl impl, parseBool incl, parseBool unv, parseBool reqv, parseFilter filt,
+  | ["ic", fx, impl, incl, unv, reqv, filt, src, tgt, extras] =>
+    match parseBool fx, parseImpl impl, parseBool incl, parseBool unv, parseBool reqv, parseFilter filt,
           parseTree src, parseTree tgt, parseExtras extras with
-    | some impl, some incl, some unv, some reqv, some filt, some src, some tgt, some extras =>
-      match iterChanges impl src tgt filt incl reqv with
+    | some fx, some impl, some incl, some unv, some reqv, some filt, some src, some tgt, some extras =>
+      match iterChangesG fx impl src tgt filt incl reqv with
       | .error e => showErr e
       | .ok cs =>
         let u := if unv then
             (extras.filter fun e => (unversionedOf [e.1] filt).contains e.1).map showUnversioned
           else []
         joinSemi (sortStrings (cs.map showChange ++ u))
-    | _, _, _, _, _, _, _, _ => "bad-op"
-  | ["app", impl, filt, src, tgt] =>
-    match parseImpl impl, parseFilter filt, parseTree src, parseTree tgt with
-    | some impl, some filt, some src, some tgt =>
-      match iterChanges impl src tgt filt false false with
+    | _, _, _, _, _, _, _, _, _ => "bad-op"
+  | ["app", fx, impl, filt, src, tgt] =>
+    match parseBool fx, parseImpl impl, parseFilter filt, parseTree src, parseTree tgt with
+    | some fx, some impl, some filt, some src, some tgt =>
+      match iterChangesG fx impl src tgt filt false false with
       | .error e => showErr e
       | .ok cs =>
         match applyChanges src tgt cs with
         | none => "F F F"
         | some t => s!"T {showBool (wf t)} {showBool (sameTree t tgt)}"
-    | _, _, _, _ => "bad-op"
+    | _, _, _, _, _ => "bad-op"
   | ["wf", t] =>
     match parseTree t with
     | some t => showBool (wf t)
     | none => "bad-op"
+  | ["hyp", src, tgt] =>
+    match parseTree src, parseTree tgt with
+    | some src, some tgt =>
+      " ".intercalate [showBool (wf src), showBool (wf tgt), showBool (sameRoot src tgt),
+        showBool (noSlotOccupant src tgt), showBool (noPathOccupant src tgt)]
+    | _, _ => "bad-op"
   | _ => "bad-op"
 
 end BreezyVerif.C10
